@@ -256,14 +256,13 @@ def addAttempt (s : State) (b j : Nat) (att : Option Nat) (inst : Option Nat) (c
     match findAttempt s b j a with
     | some _ => (s, 0)                                   -- ON DUPLICATE KEY UPDATE batch_id = batch_id: ROW_COUNT() = 0
     | none =>
-      let s1 := { s with attempts := s.attempts ++ [Attempt.mk b j a inst (Row.mk none none none none)] }
       let live : Bool := match inst.bind (findInstance s) with
         | some i => i.state = IState.pending || i.state = IState.active
         | none => false
-      let s2 := if live then
-          { s1 with instances := s1.instances.map fun (i : Instance) => if some i.name = inst then { i with free := i.free - cores } else i }
-        else s1
-      (s2, -cores)
+      ({ s with
+          attempts := s.attempts ++ [Attempt.mk b j a inst (Row.mk none none none none)]
+          instances := s.instances.map fun (i : Instance) =>
+            if live ∧ some i.name = inst then { i with free := i.free - cores } else i }, -cores)
 
 def instState (s : State) (inst : Option Nat) : Option IState := (inst.bind (findInstance s)).map (·.state)
 
@@ -533,22 +532,40 @@ def markDeleted (s : State) (name : Nat) : State × Out :=
   | some i => if i.state = .inactive then (setInstState s name .deleted, .ok 0) else (s, .ok 1)
   | none => (s, .ok 1)
 
+/-! The driver-side procedures are written as named stages (`…Prep`, `…Jobs`) followed by one guard, so that each
+procedure reads as: side effects on attempts / free cores, then `IF guard THEN UPDATE jobs …`. -/
+
+def setStateAttempt (st : JState) (a : Option Nat) (x : Job) : Job := { x with state := st, attempt := a }
+
+def isJob (b j : Nat) (x : Job) : Bool := x.batch = b ∧ x.id = j
+
+/-- `UPDATE attempts SET rollup_time = ts, end_time = ts, reason = r WHERE p` -/
+def endAttempts (s : State) (date : Nat) (p : Attempt → Bool) (ts : Int) (reason : String) : State :=
+  updateAttempts s date p (fun r => { r with rollup_time := some ts, end_time := some ts, reason := some reason })
+
+/-- jobs whose current attempt runs on instance `name` and that are Running or Creating -/
+def onInstance (s : State) (name : Nat) (j : Job) : Bool :=
+  (decide (j.state = .Running) || decide (j.state = .Creating)) &&
+  (match j.attempt with
+   | some a => (match findAttempt s j.batch j.id a with | some at' => decide (at'.inst = some name) | none => false)
+   | none => false)
+
+def deactivateApply (s : State) (name : Nat) (reason : String) (ts : Int) (date : Nat) : State :=
+  let s1 := endAttempts s date (fun a => a.inst = some name) ts reason
+  let s2 := updateJobs s1 (onInstance s1 name) (setStateAttempt .Ready none)
+  { s2 with instances := s2.instances.map fun (x : Instance) =>
+      if x.name = name then { x with state := .inactive, free := x.cores } else x }
+
 /-- procedure `deactivate_instance` -/
 def deactivate (s : State) (name : Nat) (reason : String) (ts : Int) (date : Nat) : State × Out :=
   match findInstance s name with
   | none => (s, .ok 1)
   | some i =>
-    if i.state ≠ .pending ∧ i.state ≠ .active then (s, .ok 1) else       -- ROLLBACK
-    let s1 := updateAttempts s date (fun a => a.inst = some name)
-      (fun r => { r with rollup_time := some ts, end_time := some ts, reason := some reason })
-    let onInst (j : Job) : Bool :=
-      (decide (j.state = .Running) || decide (j.state = .Creating)) &&
-      (match j.attempt with
-       | some a => (match findAttempt s1 j.batch j.id a with | some at' => decide (at'.inst = some name) | none => false)
-       | none => false)
-    let s2 := updateJobs s1 onInst (fun j => { j with state := .Ready, attempt := none })
-    ({ s2 with instances := s2.instances.map fun (x : Instance) =>
-        if x.name = name then { x with state := .inactive, free := x.cores } else x }, .ok 0)
+    if i.state ≠ .pending ∧ i.state ≠ .active then (s, .ok 1)        -- ROLLBACK
+    else (deactivateApply s name reason ts date, .ok 0)
+
+def schedulePrep (s : State) (b j a inst : Nat) (job : Job) : State :=
+  (addAttempt s b j (some a) (some inst) job.cores).1
 
 /-- procedure `schedule_job` -/
 def schedule (s : State) (b j a inst : Nat) : State × Out :=
@@ -557,33 +574,78 @@ def schedule (s : State) (b j a inst : Nat) : State × Out :=
     -- no job row: cur_* stay NULL; add_attempt still inserts the attempt (in_cores_mcpu NULL); not modelled: rejected
     (s, .err "no-job")
   | some job =>
-    let cancel := jobCancelled s job
-    let (s1, _) := addAttempt s b j (some a) (some inst) job.cores
-    if (job.state = .Ready ∨ job.state = .Creating) ∧ !cancel ∧ instState s1 (some inst) = some .active then
-      (updateJobs s1 (fun x => x.batch = b ∧ x.id = j) (fun x => { x with state := .Running, attempt := some a }), .ok 0)
-    else (s1, .ok 1)
+    if (job.state = .Ready ∨ job.state = .Creating) ∧ jobCancelled s job = false ∧
+        instState (schedulePrep s b j a inst job) (some inst) = some .active then
+      (updateJobs (schedulePrep s b j a inst job) (isJob b j) (setStateAttempt .Running (some a)), .ok 0)
+    else (schedulePrep s b j a inst job, .ok 1)
+
+def startPrep (s : State) (b j a inst : Nat) (ts : Int) (date : Nat) (job : Job) : State :=
+  updateAttempts (addAttempt s b j (some a) (some inst) job.cores).1 date
+    (fun x => x.batch = b ∧ x.job = j ∧ x.id = a)
+    (fun r => { r with start_time := some ts, rollup_time := some ts })
 
 /-- procedures `mark_job_creating` / `mark_job_started` differ only in the instance state they require and the new state -/
 def startLike (s : State) (b j a inst : Nat) (ts : Int) (date : Nat) (need : IState) (newState : JState) : State × Out :=
   match findJob s b j with
   | none => (s, .err "no-job")
   | some job =>
-    let cancel := jobCancelled s job
-    let (s1, _) := addAttempt s b j (some a) (some inst) job.cores
-    let s2 := updateAttempts s1 date (fun x => x.batch = b ∧ x.job = j ∧ x.id = a)
-      (fun r => { r with start_time := some ts, rollup_time := some ts })
-    if job.state = .Ready ∧ !cancel ∧ instState s2 (some inst) = some need then
-      (updateJobs s2 (fun x => x.batch = b ∧ x.id = j) (fun x => { x with state := newState, attempt := some a }), .ok 0)
-    else (s2, .ok 0)
+    if job.state = .Ready ∧ jobCancelled s job = false ∧
+        instState (startPrep s b j a inst ts date job) (some inst) = some need then
+      (updateJobs (startPrep s b j a inst ts date job) (isJob b j) (setStateAttempt newState (some a)), .ok 0)
+    else (startPrep s b j a inst ts date job, .ok 0)
 
 def creating (s : State) (b j a inst : Nat) (ts : Int) (date : Nat) := startLike s b j a inst ts date .pending .Creating
 def started (s : State) (b j a inst : Nat) (ts : Int) (date : Nat) := startLike s b j a inst ts date .active .Running
 
 /-- procedure `mark_job_group_complete`: for the job's group and every ancestor -/
 def markGroupsComplete (s : State) (b g : Nat) : State :=
-  let anc := ancestorsOf s b g
   { s with groups := s.groups.map fun (x : Group) =>
-      if x.batch = b ∧ anc.contains x.id ∧ x.nCompleted = x.nJobs then { x with state := .complete } else x }
+      if x.batch = b ∧ (ancestorsOf s b g).contains x.id ∧ x.nCompleted = x.nJobs then { x with state := .complete } else x }
+
+/-- attempt bookkeeping of `mark_job_complete`: add_attempt, the UPDATE of the attempt row, release of the cores -/
+def completePrep (s : State) (b j : Nat) (att inst : Option Nat) (start end_ : Option Int) (reason : String)
+    (date : Nat) (job : Job) : State :=
+  let s1 := (addAttempt s b j att inst job.cores).1
+  let curEnd : Option Int := match att with
+    | some a => (findAttempt s1 b j a).bind (·.row.end_time)
+    | none => none
+  let s2 := match att with
+    | some a => updateAttempts s1 date (fun x => x.batch = b ∧ x.job = j ∧ x.id = a) (fun _ => ⟨start, end_, end_, some reason⟩)
+    | none => s1
+  if instState s2 inst = some .active ∧ curEnd = none then freeAdd s2 inst job.cores else s2
+
+def tally (newState : JState) (x : Group) : Group :=
+  { x with nCompleted := x.nCompleted + 1
+           nCancelled := x.nCancelled + b2i (newState = .Cancelled)
+           nFailed := x.nFailed + b2i (newState = .Error ∨ newState = .Failed)
+           nSucceeded := x.nSucceeded + b2i (newState ≠ .Cancelled ∧ newState ≠ .Error ∧ newState ≠ .Failed) }
+
+/-- `UPDATE job_groups_n_jobs_in_complete_states … ` for the job's group and every ancestor -/
+def tallyGroups (s : State) (b g : Nat) (newState : JState) : State :=
+  { s with groups := s.groups.map fun (x : Group) =>
+      if x.batch = b ∧ (ancestorsOf s b g).contains x.id then tally newState x else x }
+
+def batchNJobs (s : State) (b : Nat) : Int := match findBatch s b with | some x => x.nJobs | none => 0
+def rootCompleted (s : State) (b : Nat) : Int := match findGroup s b 0 with | some r => r.nCompleted | none => 0
+
+/-- `IF cur_batch_n_completed = total_jobs_in_batch THEN UPDATE batches SET state = 'complete'` -/
+def completeBatchIfDone (s : State) (b : Nat) : State :=
+  { s with batches := s.batches.map fun (x : Batch) =>
+      if x.id = b ∧ rootCompleted s b = batchNJobs s b then { x with state := .complete } else x }
+
+/-- the job row, the tallies of its group and ancestors, batch and group completion -/
+def completeJob (s : State) (b j : Nat) (att : Option Nat) (newState : JState) (job : Job) : State :=
+  markGroupsComplete
+    (completeBatchIfDone (tallyGroups (updateJobs s (isJob b j) (setStateAttempt newState att)) b job.group newState) b)
+    b job.group
+
+def childUpdate (newState : JState) (x : Job) : Job :=
+  { x with state := if x.npp = 1 then .Ready else .Pending
+           npp := x.npp - 1
+           cancelled := if newState = .Success then x.cancelled else true }
+
+/-- children of `j`: one row per (child, parent) pair in `job_parents` -/
+def isChildOf (s : State) (b j : Nat) (x : Job) : Bool := x.batch = b ∧ s.parents.contains (b, x.id, j)
 
 /-- procedure `mark_job_complete` -/
 def complete (s : State) (b j : Nat) (att inst : Option Nat) (newState : JState) (start end_ : Option Int)
@@ -591,58 +653,27 @@ def complete (s : State) (b j : Nat) (att inst : Option Nat) (newState : JState)
   match findJob s b j with
   | none => (s, .err "no-job")
   | some job =>
-    let (s1, _) := addAttempt s b j att inst job.cores
-    let curEnd : Option Int := match att with
-      | some a => (findAttempt s1 b j a).bind (·.row.end_time)
-      | none => none
-    let s2 := match att with
-      | some a => updateAttempts s1 date (fun x => x.batch = b ∧ x.job = j ∧ x.id = a)
-          (fun _ => ⟨start, end_, end_, some reason⟩)
-      | none => s1
-    let s3 := if instState s2 inst = some .active ∧ curEnd = none then freeAdd s2 inst job.cores else s2
-    let expected := (findJob s3 b j).bind (·.attempt)
-    if expected.isSome ∧ expected ≠ att then (s3, .ok 2)
+    if job.attempt.isSome ∧ job.attempt ≠ att then (completePrep s b j att inst start end_ reason date job, .ok 2)
     else if job.state = .Ready ∨ job.state = .Creating ∨ job.state = .Running then
-      let s4 := updateJobs s3 (fun x => x.batch = b ∧ x.id = j) (fun x => { x with state := newState, attempt := att })
-      let anc := ancestorsOf s4 b job.group
-      let s5 := { s4 with groups := s4.groups.map fun (x : Group) =>
-        if x.batch = b ∧ anc.contains x.id then
-          { x with nCompleted := x.nCompleted + 1
-                   nCancelled := x.nCancelled + b2i (newState = .Cancelled)
-                   nFailed := x.nFailed + b2i (newState = .Error ∨ newState = .Failed)
-                   nSucceeded := x.nSucceeded + b2i (newState ≠ .Cancelled ∧ newState ≠ .Error ∧ newState ≠ .Failed) }
-        else x }
-      let rootCompleted := match findGroup s5 b 0 with | some r => r.nCompleted | none => 0
-      let total := match findBatch s b with | some x => x.nJobs | none => 0
-      let s6 := if rootCompleted = total then
-          { s5 with batches := s5.batches.map fun (x : Batch) => if x.id = b then { x with state := .complete } else x }
-        else s5
-      let s7 := markGroupsComplete s6 b job.group
-      -- children: one row per (child, this parent) pair in job_parents
-      let isChild (x : Job) : Bool := x.batch = b ∧ s7.parents.contains (b, x.id, j)
-      let s8 := updateJobs s7 isChild (fun x =>
-        { x with state := if x.npp = 1 then .Ready else .Pending
-                 npp := x.npp - 1
-                 cancelled := if newState = .Success then x.cancelled else true })
-      (s8, .ok 0)
-    else if job.state.terminal then (s3, .ok 0)
-    else (s3, .ok 1)
+      (updateJobs (completeJob (completePrep s b j att inst start end_ reason date job) b j att newState job)
+        (isChildOf s b j) (childUpdate newState), .ok 0)
+    else if job.state.terminal then (completePrep s b j att inst start end_ reason date job, .ok 0)
+    else (completePrep s b j att inst start end_ reason date job, .ok 1)
+
+def unschedulePrep (s : State) (b j a inst : Nat) (end_ : Int) (reason : String) (date : Nat) (job : Job) : State :=
+  let s1 := endAttempts s date (fun x => x.batch = b ∧ x.job = j ∧ x.id = a) end_ reason
+  -- `cur_end_time IS NULL` also holds when the attempt row does not exist
+  if instState s1 (some inst) = some .active ∧ (findAttempt s b j a).bind (·.row.end_time) = none
+  then freeAdd s1 (some inst) job.cores else s1
 
 /-- procedure `unschedule_job` -/
 def unschedule (s : State) (b j a inst : Nat) (end_ : Int) (reason : String) (date : Nat) : State × Out :=
   match findJob s b j with
   | none => (s, .err "no-job")
   | some job =>
-    let curEnd : Option Int := (findAttempt s b j a).bind (·.row.end_time)
-    let exists_ := (findAttempt s b j a).isSome
-    let s1 := updateAttempts s date (fun x => x.batch = b ∧ x.job = j ∧ x.id = a)
-      (fun r => { r with rollup_time := some end_, end_time := some end_, reason := some reason })
-    -- `cur_end_time IS NULL` also holds when the attempt row does not exist
-    let _ := exists_
-    let s2 := if instState s1 (some inst) = some .active ∧ curEnd = none then freeAdd s1 (some inst) job.cores else s1
     if (job.state = .Creating ∨ job.state = .Running) ∧ job.attempt = some a then
-      (updateJobs s2 (fun x => x.batch = b ∧ x.id = j) (fun x => { x with state := .Ready, attempt := none }), .ok 0)
-    else (s2, .ok 1)
+      (updateJobs (unschedulePrep s b j a inst end_ reason date job) (isJob b j) (setStateAttempt .Ready none), .ok 0)
+    else (unschedulePrep s b j a inst end_ reason date job, .ok 1)
 
 /-- `add_attempt_resources` + trigger `attempt_resources_after_insert`: duplicates are no-ops (`quantity = quantity`) -/
 def addResources (s : State) (b j a : Nat) (res : List (Nat × Int)) (date : Nat) : State × Out :=
